@@ -59,11 +59,31 @@ def run(ctx):
   dn = decn[0]
   rejects = [n for n in g.live_nodes() if n.kind == 'raise_stmt' or
              any(prog.resolve_call(mk, c) == 'config._validate_parameters' for c in calls_of_node(n))]
-  ctx.expect_at_least('rejections in _make_configurable', len(rejects), 9)
+  def conds(n):
+    return ' & '.join(sorted('%s=%s' % (f[1], f[2]) for f in facts[n.id] if f[0] == 'c'))
+  expected = {
+      'locked configuration': lambda n: n.kind == 'raise_stmt' and 'config_is_locked()=True' in conds(n),
+      'invalid name': lambda n: n.kind == 'raise_stmt' and 'MODULE_RE.match(name)=False' in conds(n),
+      'invalid module': lambda n: n.kind == 'raise_stmt' and 'MODULE_RE.match(module)=False' in conds(n),
+      'different object under an existing name': lambda n: n.kind == 'raise_stmt' and 'selector in _REGISTRY' in conds(n),
+      'both lists given': lambda n: n.kind == 'raise_stmt' and 'allowlist=True' in conds(n) and 'denylist=True' in conds(n),
+      'allowlist of wrong type': lambda n: n.kind == 'raise_stmt' and 'isinstance(allowlist, (list, tuple))=False' in conds(n),
+      'denylist of wrong type': lambda n: n.kind == 'raise_stmt' and 'isinstance(denylist, (list, tuple))=False' in conds(n),
+      'unknown name in the allowlist': lambda n: any(prog.resolve_call(mk, c) == 'config._validate_parameters' and len(c.args) > 1 and u(c.args[1]) == 'allowlist' for c in calls_of_node(n)),
+      'unknown name in the denylist': lambda n: any(prog.resolve_call(mk, c) == 'config._validate_parameters' and len(c.args) > 1 and u(c.args[1]) == 'denylist' for c in calls_of_node(n)),
+  }
+  for label, pred in expected.items():
+    hits = [n for n in rejects if pred(n)]
+    late = [n for n in hits if g.reaches(dn.id, n.id)]
+    ctx.check(bool(hits) and not late, 'C13.atomic', construct(mk),
+              'rejection of %s precedes the decoration and the registry writes' % label,
+              ('rejection of %s (line %d) can happen after the class/function has been decorated: a rejected registration leaves a mutated class or a half-registered entry'
+               % (label, late[0].lineno)) if late else 'registration no longer rejects: %s' % label,
+              mk.loc(late[0].ast) if late else mk.loc(), instance=label)
   late = [n for n in rejects if g.reaches(dn.id, n.id)]
   ctx.check(not late, 'C13.atomic', construct(mk),
-            'all %d rejections (lock, name, module, duplicate, both lists, list types, unknown list entries) precede the decoration and the registry writes' % len(rejects),
-            'rejection `%s` (line %d) can happen after the class/function has been decorated: a rejected registration leaves a mutated class or a half-registered entry'
+            'all %d rejections precede the decoration and the registry writes' % len(rejects),
+            'rejection `%s` (line %d) can happen after the class/function has been decorated'
             % (late[0].text(), late[0].lineno) if late else '', mk.loc(late[0].ast) if late else mk.loc(), sites=len(rejects), instance='rejections-first')
   _, acc = store_accesses(prog, 'config', ['_REGISTRY', '_INVERSE_REGISTRY'])
   ws = [a for a in acc if a.func is mk and a.kind == 'write']
